@@ -370,6 +370,28 @@ Fixpoint has_subcommand (vs : variants) (name : bytes) : bool :=
 Definition ms_remove_subcommand (m : matches) : option (bytes * matches) * matches :=
   (ms_sub m, Matches (ms_args m) None).
 
+(** [gen_from_arg_matches] around the variant chain [ev]: [remove_subcommand], else MissingSubcommand *)
+Definition sub_from_matches (ev : bytes -> matches -> xres (nat * list dval)) (m : matches)
+  : xres (nat * list dval * matches) :=
+  match ms_remove_subcommand m with
+  | (Some (name, sm), m') => dox r <- ev name sm; XOk (r, m')
+  | (None, _) => XErr EMissingSubcommand
+  end.
+(** [gen_update_from_arg_matches] on the current value (vi, fs): [uv] = the match arms
+    [Self::V.. if name == cname] ([Some fs'] = updated in place), else the fall-through arm *)
+Definition sub_update (uv : nat -> bytes -> list dval -> matches -> xres (option (list dval)))
+           (ev : bytes -> matches -> xres (nat * list dval)) (vi : nat) (fs : list dval) (m : matches)
+  : xres (nat * list dval * matches) :=
+  match ms_sub m with
+  | None => XOk (vi, fs, m)
+  | Some (name, sm) =>
+      dox same <- uv vi name fs sm;
+      match same with
+      | Some fs' => XOk (vi, fs', Matches (ms_args m) None)
+      | None => sub_from_matches ev m
+      end
+  end.
+
 (** [gen_constructor] ([extract_node]/[extract_nodes]) and [gen_from_arg_matches]
     ([extract_variants] = the chain of [if name == sub_name && !contains_id("")], counting the
     variant index from [i]). *)
@@ -382,17 +404,11 @@ Fixpoint extract_node (n : node) (m : matches) {struct n} : xres (dval * matches
       if m_contains gid m then dox r <- extract_nodes body m; XOk (DOptStruct (Some (fst r)), snd r)
       else XOk (DOptStruct None, m)
   | NSub opt vs =>
-      let from_arg_matches (m : matches) : xres (nat * list dval * matches) :=
-        match ms_remove_subcommand m with
-        | (Some (name, sm), m') =>
-            dox r <- extract_variants vs 0 name sm; XOk (r, m')
-        | (None, _) => XErr EMissingSubcommand
-        end in
       if opt then
         if match ms_sub m with Some (name, _) => has_subcommand vs name | None => false end
-        then dox r <- from_arg_matches m; XOk (DOptEnum (Some (fst r)), snd r)
+        then dox r <- sub_from_matches (extract_variants vs 0) m; XOk (DOptEnum (Some (fst r)), snd r)
         else XOk (DOptEnum None, m)
-      else dox r <- from_arg_matches m; XOk (DEnum (fst (fst r)) (snd (fst r)), snd r)
+      else dox r <- sub_from_matches (extract_variants vs 0) m; XOk (DEnum (fst (fst r)) (snd (fst r)), snd r)
   end
 with extract_nodes (ns : nodes) (m : matches) {struct ns} : xres (list dval * matches) :=
   match ns with
@@ -441,26 +457,11 @@ Fixpoint update_node (n : node) (v : dval) (m : matches) {struct n} : xres (dval
       | _ => XPanic 2
       end
   | NSub opt vs =>
-      let from_arg_matches (m : matches) : xres (nat * list dval * matches) :=
-        match ms_remove_subcommand m with
-        | (Some (name, sm), m') => dox r <- extract_variants vs 0 name sm; XOk (r, m')
-        | (None, _) => XErr EMissingSubcommand
-        end in
-      (* [update_from_arg_matches_mut] of the enum on the current value (vi, fs) *)
-      let upd (vi : nat) (fs : list dval) : xres (nat * list dval * matches) :=
-        match ms_sub m with
-        | None => XOk (vi, fs, m)
-        | Some (name, sm) =>
-            dox same <- update_variants vs vi name fs sm;
-            match same with
-            | Some fs' => XOk (vi, fs', Matches (ms_args m) None)
-            | None => from_arg_matches m
-            end
-        end in
+      let upd := sub_update (update_variants vs) (extract_variants vs 0) in
       match opt, v with
-      | false, DEnum vi fs => dox r <- upd vi fs; XOk (DEnum (fst (fst r)) (snd (fst r)), snd r)
-      | true, DOptEnum (Some (vi, fs)) => dox r <- upd vi fs; XOk (DOptEnum (Some (fst r)), snd r)
-      | true, DOptEnum None => dox r <- from_arg_matches m; XOk (DOptEnum (Some (fst r)), snd r)
+      | false, DEnum vi fs => dox r <- upd vi fs m; XOk (DEnum (fst (fst r)) (snd (fst r)), snd r)
+      | true, DOptEnum (Some (vi, fs)) => dox r <- upd vi fs m; XOk (DOptEnum (Some (fst r)), snd r)
+      | true, DOptEnum None => dox r <- sub_from_matches (extract_variants vs 0) m; XOk (DOptEnum (Some (fst r)), snd r)
       | _, _ => XPanic 2
       end
   end
